@@ -150,7 +150,7 @@ NO_SHRINK = True
 
 
 def shards(tier, seed):
-    n = 900 if tier == "thorough" else 90
+    n = 4000 if tier == "thorough" else 400
     return [{"seed": seed, "lo": i * n, "hi": (i + 1) * n} for i in range(16)]
 
 
